@@ -56,8 +56,8 @@ fn seeded_endpoints(seeds: &[[u8; 32]; 3]) -> [Endpoint; 3] {
     std::array::from_fn(|h| SeededEndpointSetup::from_seeds(sd(&seeds[(h + 2) % 3]), sd(&seeds[h])).setup())
 }
 
-/// (a)+(b): agreement between neighbours, separation across (pair, step, index, offset), equality
-/// with the reference model, typed draws derived from the raw blocks
+/// (a)+(b): agreement between neighbours, separation across (pair, step, index, offset) - no
+/// repeated and no related values; the reference model only feeds a label
 fn draws(_env: &Env, src: &mut Src<'_>) -> CaseResult {
     let seeds: [[u8; 32]; 3] = std::array::from_fn(|_| {
         let b = src.bytes(32);
@@ -73,19 +73,30 @@ fn draws(_env: &Env, src: &mut Src<'_>) -> CaseResult {
         }
     }
     let mut seen: HashMap<u128, (usize, String, u32, u32)> = HashMap::new();
+    // differences of consecutive blocks of one draw: a derivation whose outputs are related
+    // (counter-like, xor-linear in the offset) repeats them
+    let mut seen_rel: HashMap<(u8, u128), (usize, String, u32, u32)> = HashMap::new();
+    let mut ref_differs = false;
     let mut n_draws = 0usize;
     let mut kinds: Vec<String> = vec![];
     for step in &steps {
         let gate = Gate::from(*step);
         let prss: Vec<_> = eps.iter().map(|e| e.indexed(&gate)).collect();
         let mut used_idx: Vec<u32> = vec![];
-        for _ in 0..src.urange(1, 5) {
-            let index = gen_index(src);
+        // (index, forced kind): a draw of the full 2049 blocks is followed by a single-block draw
+        // for the next index, so that an encoding of (index, offset) that lets the last offset of
+        // one index collide with the first offset of the next one shows up as a repeated value
+        let mut todo: Vec<(u32, Option<u64>)> = (0..src.urange(1, 5)).map(|_| (gen_index(src), None)).collect();
+        while !todo.is_empty() {
+            let (index, forced) = todo.remove(0);
             if used_idx.contains(&index) {
                 continue; // drawing one (step, index) twice is the misuse checked in `api_misuse`
             }
             used_idx.push(index);
-            let kind = src.below(10);
+            let kind = forced.unwrap_or_else(|| src.below(10));
+            if kind == 8 && index < u32::MAX {
+                todo.insert(0, (index + 1, Some(0)));
+            }
             let cj = json!({"step": step, "index": index, "kind": kind});
             // number of 128-bit blocks this draw consumes and the raw values per helper
             let blocks: usize = match kind {
@@ -120,13 +131,23 @@ fn draws(_env: &Env, src: &mut Src<'_>) -> CaseResult {
                     if raw[h][off].1 != raw[nxt][off].0 {
                         return Err(violation("neighbours-disagree", format!("step {step:?} index {index} offset {off}: H{}.right != H{}.left", h + 1, nxt + 1), cj));
                     }
-                    let want = ref_block(&seeds[h], step, index, off as u32);
-                    if raw[h][off].1 != want {
-                        return Err(violation("differs-from-reference", format!("step {step:?} index {index} offset {off}: value differs from HKDF-SHA256/AES-256 reference"), cj));
+                    // The derivation itself (HKDF-SHA256 -> AES-256 MMO over (index << 32) + offset) is
+                    // not part of the property: a different but sound derivation must not alarm.
+                    // Agreement with the reference model is reported as a label only.
+                    if raw[h][off].1 != ref_block(&seeds[h], step, index, off as u32) {
+                        ref_differs = true;
                     }
                     n_draws += 1;
                     if let Some(prev) = seen.insert(raw[h][off].1, (h, (*step).to_string(), index, off as u32)) {
                         return Err(violation("values-repeat", format!("the same 128-bit value for (pair {h}, {step:?}, {index}, {off}) and {prev:?}"), cj));
+                    }
+                    if off + 1 < blocks {
+                        let (a, b) = (raw[h][off].1, raw[h][off + 1].1);
+                        for (tag, d) in [(0u8, a ^ b), (1u8, b.wrapping_sub(a))] {
+                            if let Some(prev) = seen_rel.insert((tag, d), (h, (*step).to_string(), index, off as u32)) {
+                                return Err(violation("values-related", format!("consecutive blocks at (pair {h}, {step:?}, {index}, {off}) and at {prev:?} differ by the same {} 0x{d:032x}", if tag == 0 { "xor" } else { "difference" }), cj));
+                            }
+                        }
                     }
                 }
             }
@@ -146,7 +167,7 @@ fn draws(_env: &Env, src: &mut Src<'_>) -> CaseResult {
                 }
                 let want: $t = $conv(ref_block(&seeds[h], "typed", idx, 0));
                 if vals[h].1 != want {
-                    return Err(violation("typed-draw", format!("{} drawn at index {idx} is not the conversion of the reference block", stringify!($t)), json!({"type": stringify!($t), "index": idx})));
+                    ref_differs = true;
                 }
             }
         }};
@@ -173,7 +194,16 @@ fn draws(_env: &Env, src: &mut Src<'_>) -> CaseResult {
             bytes[..16].copy_from_slice(&lo.to_le_bytes());
             bytes[16..].copy_from_slice(&hi.to_le_bytes());
             if vals[h].1 != BA256::deserialize_infallible(&GenericArray::from(bytes)) {
-                return Err(violation("typed-draw", "BA256 is not the concatenation of reference blocks 0 and 1".to_string(), json!({"index": idx})));
+                ref_differs = true;
+            }
+            // the two halves of a two-block value are different blocks
+            let b = {
+                let mut g = GenericArray::default();
+                vals[h].1.serialize(&mut g);
+                g
+            };
+            if b[..16] == b[16..] {
+                return Err(violation("values-repeat", format!("both 128-bit halves of the BA256 drawn at index {idx} are equal"), json!({"index": idx})));
             }
         }
     }
@@ -183,6 +213,7 @@ fn draws(_env: &Env, src: &mut Src<'_>) -> CaseResult {
         let g = Gate::from("sequential");
         let mut rngs: Vec<_> = eps.iter().map(|e| e.sequential(&g)).collect();
         let count = 1 + (base as usize % 40);
+        let mut seq_seen: std::collections::HashSet<(usize, u64)> = std::collections::HashSet::new();
         for k in 0..count {
             let vals: Vec<(u64, u64)> = rngs.iter_mut().map(|(l, r)| (l.next_u64(), r.next_u64())).collect();
             for h in 0..3 {
@@ -190,11 +221,15 @@ fn draws(_env: &Env, src: &mut Src<'_>) -> CaseResult {
                     return Err(violation("neighbours-disagree", format!("sequential stream, value {k}"), json!({"k": k})));
                 }
                 if vals[h].1 != ref_block(&seeds[h], "sequential", k as u32, 0) as u64 {
-                    return Err(violation("differs-from-reference", format!("sequential stream value {k} is not the low half of reference block ({k}, 0)"), json!({"k": k})));
+                    ref_differs = true;
+                }
+                if !seq_seen.insert((h, vals[h].1)) {
+                    return Err(violation("values-repeat", format!("sequential stream of pair {h} repeats a 64-bit value at position {k}"), json!({"k": k})));
                 }
             }
         }
     }
+    kinds.push(if ref_differs { "reference-model:differs".into() } else { "reference-model:matches".into() });
     kinds.sort();
     kinds.dedup();
     Ok(CaseOk::new(n_draws > 0, &(seeds, steps.len(), n_draws, base), json!({"steps": steps, "draws_compared": n_draws})).labels(kinds))
@@ -352,7 +387,7 @@ fn sweep(env: &Env, src: &mut Src<'_>) -> CaseResult {
 pub fn subs(_env: &Env) -> Vec<Sub> {
     vec![
         Sub::random("draws", 400, 3000, 100_000, draws,
-            "three endpoints built from generated 32-byte seeds; 2-6 steps from a pool with near-duplicates and prefixes; indices {0,1,2^31,u32::MAX-1,u32::MAX,2^k,random}; draws of 1, 2, 8, 32 and 2049 blocks (offsets 0..=2^11, the inclusive cap); every block: H_i.right = H_{i+1}.left, equals the independent HKDF-SHA256 -> AES-256 (AES(i) xor i) reference, and all blocks of the case are pairwise distinct; typed draws (three prime fields, BA3..BA256, Gf32Bit) equal the conversion of the reference block; non-trivial = at least one block compared")
+            "three endpoints built from generated 32-byte seeds; 2-6 steps from a pool with near-duplicates and prefixes; indices {0,1,2^31,u32::MAX-1,u32::MAX,2^k,random}; draws of 1, 2, 8, 32 and 2049 blocks (offsets 0..=2^11, the inclusive cap); a 2049-block draw is followed by a draw for the next index; every block: H_i.right = H_{i+1}.left; all blocks of the case are pairwise distinct and so are the xor / arithmetic differences of consecutive blocks (no repeated or related values across steps, indices, offsets); typed draws (three prime fields, BA3..BA256, Gf32Bit) and sequential streams agree between neighbours and do not repeat. Agreement with an independent HKDF-SHA256 -> AES-256 (AES(i) xor i) model of the current derivation is recorded as a label only: the derivation is not part of the property; non-trivial = at least one block compared")
         .shrink_iters(100),
         Sub::exhaustive("api_misuse", 6, 6, api_misuse,
             "offset cap inclusive / beyond; the same (step, index) twice panics; sequential after indexed and sequential twice panic; indexed twice works; sequential streams of neighbours agree"),
